@@ -34,14 +34,21 @@ import (
 // gatedSrv is a srvStream whose Send can be held by the harness (a slow target).
 type gatedSrv struct {
 	*srvStream
-	gmu  sync.Mutex
-	gate chan struct{} // non-nil: Send blocks until closed
+	gmu    sync.Mutex
+	gate   chan struct{} // non-nil: Send blocks until closed
+	inSend *repResp      // the message Send is being called with right now
 }
 
 func (g *gatedSrv) Send(r *repResp) error {
 	g.gmu.Lock()
 	gate := g.gate
+	g.inSend = r
 	g.gmu.Unlock()
+	defer func() {
+		g.gmu.Lock()
+		g.inSend = nil
+		g.gmu.Unlock()
+	}()
 	if gate != nil {
 		select {
 		case <-gate:
@@ -50,6 +57,13 @@ func (g *gatedSrv) Send(r *repResp) error {
 		}
 	}
 	return g.srvStream.Send(r)
+}
+
+// InSend: the message the sender is blocked on (already in its id table, not yet received by the target)
+func (g *gatedSrv) InSend() *repResp {
+	g.gmu.Lock()
+	defer g.gmu.Unlock()
+	return g.inSend
 }
 func (g *gatedSrv) Gated() bool {
 	g.gmu.Lock()
@@ -78,6 +92,8 @@ type tgtInc struct {
 	highs    []int64
 	lastID   int64
 	lastOrig map[int]int64 // per source: last original id delivered on this stream (source order check)
+	brokenAt int           // op sequence number at which this incarnation broke
+	srcBound map[int]int64 // per source: upper bound of the largest original id / watermark among the messages of that source this stream received
 }
 
 type rTask struct {
@@ -86,6 +102,7 @@ type rTask struct {
 	pb     *replicationpb.ReplicationTask // pristine copy
 	faulty bool                           // received in a trace prefix with faults
 	srcInc int                            // incarnation of the source receiver that received it
+	seq    int                            // op sequence number at which the proxy received it
 }
 
 type rWorld struct {
@@ -114,6 +131,8 @@ type rWorld struct {
 	keepalives  int
 	noSleep     bool
 	viol        []map[string]any
+	seq         int     // op sequence number
+	maxHigh     []int64 // per source: largest exclusive high of an EMPTY batch so far (only those travel on as watermark messages: broadcast or replay)
 }
 
 func wfFor(n int32, want int32) string {
@@ -150,6 +169,7 @@ func newRWorld(t *testing.T, ns, nt int) *rWorld {
 	w.tgtHist = make([][]*tgtInc, nt)
 	w.received = make([][]*rTask, ns)
 	w.lastHigh = make([]int64, ns)
+	w.maxHigh = make([]int64, ns)
 	for t := 0; t < nt; t++ {
 		w.wf = append(w.wf, wfFor(int32(nt), int32(t+1)))
 	}
@@ -251,13 +271,16 @@ func (w *rWorld) batch(s int, high int64, tasks [][2]int64) {
 		id, owner := tk[0], int(tk[1])
 		pt := &replicationpb.ReplicationTask{SourceTaskId: id, TaskType: 1,
 			RawTaskInfo: &persistencepb.ReplicationTaskInfo{NamespaceId: "ns", WorkflowId: w.wf[owner], TaskId: id, Version: id*1000 + int64(s), RunId: fmt.Sprintf("run-%d-%d", s, id)}}
-		w.received[s] = append(w.received[s], &rTask{id: id, owner: owner, pb: proto.Clone(pt).(*replicationpb.ReplicationTask), faulty: w.faults, srcInc: w.srcInc[s]})
+		w.received[s] = append(w.received[s], &rTask{id: id, owner: owner, pb: proto.Clone(pt).(*replicationpb.ReplicationTask), faulty: w.faults, srcInc: w.srcInc[s], seq: w.seq})
 		pts = append(pts, pt)
 	}
 	synctest.Wait() // every goroutine is parked: a non-blocking send succeeds iff the receiver sits in Recv
 	select {
 	case cs.in <- ev[repResp]{v: msgRespFrom(s, high, pts...)}:
 		w.lastHigh[s] = high
+		if len(tasks) == 0 && high > w.maxHigh[s] {
+			w.maxHigh[s] = high
+		}
 	default:
 		// receiver busy (blocked hand-off): the source cannot make progress either; the batch is not sent
 		w.received[s] = w.received[s][:len(w.received[s])-len(tasks)]
@@ -290,10 +313,14 @@ func (w *rWorld) observe() (string, string) {
 					kind = "t"
 				}
 				srcs = append(srcs, fmt.Sprintf("%d%s", int(msgs.GetPriority())-100, kind))
+				w.noteTaken(ti, msgs)
 				w.monitorMsg(t, ti, msgs)
 				items = append(items, strings.Join(pairs, ",")+fmt.Sprintf("/%d", h))
 			}
 			ti.seen = len(sent)
+			if r := ti.stream.InSend(); r != nil && r.GetMessages() != nil {
+				w.noteTaken(ti, r.GetMessages()) // held in Send: the sender has taken it (it is in its id table) although the target has not received it
+			}
 		}
 		if len(srcs) > 0 {
 			hint = append(hint, fmt.Sprintf("%d:%s", t, strings.Join(srcs, ",")))
@@ -439,6 +466,55 @@ func (w *rWorld) confirmed(rt *rTask, src int) (bool, string) {
 	return false, where
 }
 
+// noteTaken records what a target stream's sender has taken of each source (Act.take of the model): a task message carries
+// its last original id; the original watermark of a watermark message is rewritten in transit — it is at most the largest
+// one an empty batch of that source has announced so far (only those travel on as watermark messages, broadcast or replayed).
+func (w *rWorld) noteTaken(ti *tgtInc, msgs *replicationpb.WorkflowReplicationMessages) {
+	src := int(msgs.GetPriority()) - 100
+	if src < 0 || src >= w.ns {
+		return
+	}
+	bound := w.maxHigh[src]
+	if tks := msgs.GetReplicationTasks(); len(tks) > 0 && tks[len(tks)-1].RawTaskInfo != nil {
+		bound = tks[len(tks)-1].RawTaskInfo.Version / 1000
+	}
+	if ti.srcBound == nil {
+		ti.srcBound = map[int]int64{}
+	}
+	if bound > ti.srcBound[src] {
+		ti.srcBound[src] = bound
+	}
+}
+
+// lostAndPassed: `ExcusedT` (a) of Spec/RoutingFaultsTight.lean on the implementation's trace. The recorded defect
+// C04-target-break-loses-inflight acknowledges a task that was lost with a broken stream of its target BECAUSE a later
+// stream of that target received something of the same source above the task (a replayed or new watermark, later tasks)
+// and confirmed that. A lost task that is acknowledged although no later stream of its target has received anything of
+// its source above it is a different defect and is not excused.
+func (w *rWorld) lostAndPassed(s int, rt *rTask) bool {
+	hist := w.tgtHist[rt.owner]
+	for j, ti := range hist {
+		if !ti.broken {
+			continue
+		}
+		lostHere := rt.seq < ti.brokenAt // it may have been handed to (queued for) this stream
+		for _, so := range ti.byProxy {
+			if int(so[0]) == s && so[1] == rt.id {
+				lostHere = true
+			}
+		}
+		if !lostHere {
+			continue
+		}
+		for _, later := range hist[j+1:] {
+			if later.srcBound[s] > rt.id {
+				return true
+			}
+		}
+	}
+	return false
+}
+
 // firstReceiptInc: the earliest incarnation of source stream s that received the task (same id, same owner)
 func (w *rWorld) firstReceiptInc(s int, rt *rTask) int {
 	first := rt.srcInc
@@ -472,7 +548,7 @@ func (w *rWorld) monitorAck(s int, a int64) {
 				extra := map[string]any{}
 				if w.faults {
 					prop = "C04"
-					if strings.Contains(where, "broke before confirming") {
+					if strings.Contains(where, "broke before confirming") && w.lostAndPassed(s, rt) {
 						extra["finding"] = "C04-target-break-loses-inflight"
 					} else if first := w.firstReceiptInc(s, rt); first < w.srcInc[s] {
 						// as `Excused` of Spec/RoutingFaults.lean: the task (same id, same owner) was received by an earlier
@@ -480,6 +556,9 @@ func (w *rWorld) monitorAck(s int, a int64) {
 						extra["finding"] = "C04-source-restart-forgets-targets"
 						where += fmt.Sprintf("; the task was received by incarnation %d of the source stream, the ack was sent by incarnation %d", first, w.srcInc[s])
 					}
+				}
+				if _, excused := extra["finding"]; !excused && strings.Contains(where, "broke before confirming") {
+					where += "; no later stream of that target has received anything of this source above the task, so this is not the recorded way of losing it"
 				}
 				what := fmt.Sprintf("source %d was sent ack %d but its task %d %s", s, a, rt.id, where)
 				if _, excused := extra["finding"]; excused {
@@ -501,6 +580,7 @@ func (w *rWorld) monitorAck(s int, a int64) {
 // ---- op interpreter ----
 
 func (w *rWorld) exec(op string) (string, string) {
+	w.seq++
 	if i := strings.Index(op, " ~ "); i >= 0 {
 		op = op[:i]
 	}
@@ -543,6 +623,7 @@ func (w *rWorld) exec(op string) (string, string) {
 		if ti := w.tgt[t]; ti != nil && !ti.broken {
 			w.faults = true
 			ti.broken = true
+			ti.brokenAt = w.seq
 			ti.cancel() // a held Send fails with the context error: the message in hand dies with the stream
 			synctest.Wait()
 			ti.stream.SetGate(false)
